@@ -130,6 +130,43 @@ def theorems_of(mod):
     return out
 
 
+
+# explicit mathematical / interface hypotheses that theorems of the Props modules may carry (they are hypotheses of the
+# theorem statements, never axioms); the evidence lists the ones actually present in the property's modules
+HYPOTHESIS_MARKERS = {
+    "Nat.Prime p": "primality of 2^255-19 taken as a hypothesis ([Fact (Nat.Prime p)] / hp : Nat.Prime p) by some theorems of these modules",
+    "EdwardsGroupLaw": "closure + associativity of the Edwards addition taken as a hypothesis (G : EdwardsGroupLaw) by some theorems of these modules",
+    "DecodeFact": "Ge::from_bytes refines Spec decode taken as an interface hypothesis (DecodeFact)",
+    "DsmFact": "double_scalarmult_vartime = [a]A+[b]B taken as an interface hypothesis (DsmFact)",
+    "LadderComm": "commutation of the Montgomery ladder (DH symmetry) taken as a hypothesis (LadderComm)",
+    "Sc32ReduceSpec": "ref10 sc_reduce = value mod L for the 32-bit backend taken as a hypothesis (Sc32ReduceSpec)",
+    "Sc32MuladdSpec": "ref10 sc_muladd = (ab+c) mod L for the 32-bit backend taken as a hypothesis (Sc32MuladdSpec)",
+}
+
+
+def assumptions_of(mods):
+    """hypothesis markers occurring in theorem signatures / `variable` lines of the modules, and `_partial` theorems"""
+    found, partial = {}, []
+    for mod in mods:
+        try:
+            src = strip_comments(open(module_path(mod)).read())
+        except OSError:
+            continue
+        # signature text = from `theorem`/`variable` up to `:=`
+        sigs = re.findall(r"(?:theorem|variable)\b(.*?)(?::=|\n\s*\n|$)", src, flags=re.S)
+        text = "\n".join(sigs)
+        for k, d in HYPOTHESIS_MARKERS.items():
+            if k in text:
+                found.setdefault(k, []).append(mod)
+        for (t, _) in theorems_of(mod):
+            if t.endswith("_partial"):
+                partial.append(t)
+    out = [f"{HYPOTHESIS_MARKERS[k]} [in: {', '.join(sorted(set(v)))}]" for k, v in found.items()]
+    if partial:
+        out.append("theorems proved only under explicit extra hypotheses (suffix _partial; each has its unconditional "
+                   "counterpart listed in `theorems` when one exists): " + ", ".join(partial))
+    return out
+
 def lake_build(targets, timeout=3600):
     t0 = time.time()
     rc, out = sh(["lake", "build"] + targets, cwd=LEAN, timeout=timeout)
